@@ -11,6 +11,8 @@ pub const CHROM_POOL: &[&str] = &[
 pub enum Zoom {
     Auto { initial: u32, max: u32 },
     Manual(Vec<u32>),
+    /// a manual list together with a `max_zooms` smaller than the list (the manual list overrides max_zooms)
+    ManualWithMax(Vec<u32>, u32),
 }
 
 #[derive(Clone, Debug, PartialEq, Eq)]
@@ -64,6 +66,7 @@ impl WOpts {
                 match &self.zoom {
                     Zoom::Auto { initial, max } => J::s(format!("auto:{}x{}", initial, max)),
                     Zoom::Manual(v) => J::s(format!("manual:{:?}", v)),
+                    Zoom::ManualWithMax(v, m) => J::s(format!("manual:{:?}+max_zooms={}", v, m)),
                 },
             )
             .set("inmem", self.inmemory.into())
@@ -91,7 +94,9 @@ pub const WORKERS: &[usize] = &[0, 1, 2, 3, 4, 8, 16];
 pub const CHAN: &[usize] = &[0, 1, 100];
 
 pub fn gen_zoom(r: &mut Rng) -> Zoom {
-    match r.below(8) {
+    match r.below(10) {
+        8 => Zoom::ManualWithMax(vec![10, 40, 160], 1),
+        9 => Zoom::ManualWithMax(vec![7, 13, 1000, 4000], *r.pick(&[0, 2])),
         0 => Zoom::Manual(vec![4]),
         1 => Zoom::Manual(vec![10, 40]),
         2 => Zoom::Manual(vec![7, 13, 1000]),
